@@ -111,9 +111,14 @@ def deleteCreated (s : State) : State :=
 
 inductive Op
   | req (r : Req)
+  /-- `compute_df_concat_with_tf` & co: compute through the cache, then also store under the templated name -/
+  | computeNamed (r : Req)
   | drop (p : Phys)
   | invalidate
   | mutateInvalidate
+  /-- the input data change but `invalidate_cache()` is NOT called (e.g. a second linker re-registers
+  `__splink__input_table_0` on a shared DatabaseAPI) -/
+  | mutate
   | deleteCreated
   deriving Repr
 
@@ -121,6 +126,10 @@ section
 variable (hash : Nat → Nat → Nat) (eval : Nat → Nat → Nat)
 def applyOp (s : State) : Op → State
   | .req r => (request hash eval s r).state
+  | .computeNamed r =>
+    let res := request hash eval s r
+    { res.state with cache := cacheSet (.named r.templ) ⟨⟨r.templ, hash r.text s.uid⟩, res.val, true⟩ res.state.cache }
+  | .mutate => { s with data := s.data + 1 }
   | .drop p => dropTable s p
   | .invalidate => invalidate s
   | .mutateInvalidate => mutateInvalidate s
